@@ -434,3 +434,82 @@ Proof. cbv zeta. split; [vm_compute; repeat split; reflexivity|]. vm_compute. re
 Print Assumptions C06_true_lag_yields_seed.
 Print Assumptions C06_true_lag_yields_seed_at_lag.
 Print Assumptions C06_true_lag_yields_primary_peak.
+
+(* ==================================================================================================================================
+   APPENDED (3): THE FULL STATEMENT IS REFUTED FOR THE CODE AS IT IS  (open findings F13 and F15, known_findings.json)
+
+   FULL C06: "If a query's labels are an exact copy of at least 15 consecutive labels from the interior of a reference with realistic
+   label spacing, given on either strand and with any coordinate offset, COMA reports that query on that reference and strand with exactly
+   the true label-to-label pairs, each within 200 bp of the seed diagonal, and with no HitEnum gaps" — for all single-reference maps with
+   label spacing >= 2 kb (mean >= 9 kb), all interior windows of 15-45 labels at least 4 labels from either reference end, both strands,
+   any query coordinate offset and trailing length; default parameters, every output mode.
+
+   The two gaps left open above, (1)/(2) "the peak of the true lag is among the peaksCount best" and "no other candidate scores higher",
+   are not merely unproved: they are FALSE on references that contain DIVERGED DUPLICATES of the window (segmental duplications with a label
+   lost, gained or moved), which the quantifier admits.  Both witnesses below are inside the quantifier (every spacing >= 2 kb, mean
+   >= 9 kb, 15-label window >= 4 labels from either end, forward strand, offset 0), are evaluated with the DEFAULT parameters at real
+   scale (positions in tenths of a base pair) through the executable whole-run model Seeding.program_run_full, and are run through the real
+   program by harness/props/C06.py (stream planted_decoys: same records in all four output modes).
+
+   F13  C06_top_seeds_refuted.  The primary correlation (1400-bp bins, blur 1) of an exact copy reaches height 1 only when the window
+        starts near a bin border (C06_true_lag_yields_seed needs r_a = k0 * res).  The witness window starts in the middle of a bin and
+        reaches 72/81 = 0.889; three duplicates of it with ONE label missing each start on bin borders and reach 80/81, 78/80, 76/79.
+        createPeaks keeps the peaksCount = 3 highest peaks of the correlation, selectPeaks the 3 best scores: the true lag is 4th, it is
+        never refined, never aligned; every seed is more than 20 kb away; the run reports the query on the first duplicate with 14 pairs
+        and HitEnum 12M1I2M instead of (6,1)..(20,15), 15M.  Not a small repair: keeping only the best few correlation peaks IS the seeding
+        heuristic (more peaks = proportionally more refinement and alignment work per query), and the height lost to the bin phase
+        (up to ~13 %) is inherent to a 1400-bp grid with blur 1.
+   F15  C06_best_candidate_refuted.  Even when the true locus IS refined and its candidate is perfect (exactly the true pairs, 15M), the
+        candidate's confidence is 15 * (1000 - e) where e = distance of the secondary seed peak (100-bp bins, blur 4, midpoint of a plateau)
+        from the true diagonal: an artefact of up to ~125 bp, here 48 bp.  ONE duplicate of the window with one EXTRA label whose
+        secondary peak happens to fall 2 bp from its diagonal scores 15 * 998 - 250 = 14720 > 14280 and is reported (8M1D7M).
+        Not a small repair either: the score of a pair is defined relative to the seed diagonal, not to the other pairs. *)
+From Coq Require Import String.
+Require Import Pairing Core Multi Cigar Coordinator PlantedProofs1 PlantedProofs2 PlantedProofs3 SeedingProofsF13.
+Local Open Scope Z_scope.
+
+Theorem C06_top_seeds_refuted :
+  exists (ref q : omap) (a n : nat),
+    (* inside the quantifier: spacings > 1999.9 bp, mean spacing >= 9 kb, an exact forward copy of n = 15 labels, >= 4 labels from either end *)
+    consec_gt 19999 (mpositions ref) /\
+    90000 * (Z.of_nat (List.length (mpositions ref)) - 1) <= last (mpositions ref) 0 - hd 0 (mpositions ref) /\
+    planted (mpositions ref) a n false q /\ n = 15%nat /\ (4 <= a)%nat /\ (a + n + 4 <= List.length (mpositions ref))%nat /\
+    (* find_peaks does return a peak at the true lag (bin 40 = the bin of r_a = 56700.0 bp), but three other peaks are higher *)
+    (exists l t, primary_peaks sp_all ref q false = Ok l /\ In t l /\ pp_pos t = bin_to_bp (nth a (mpositions ref) 0 / (K * 1400)) 1400 0 /\
+       (3 <= List.length (filter (fun p => negb (Qle_bool (pp_height p) (pp_height t))) l))%nat) /\
+    (* the seeds of the default parameters: all three on the forward strand, every secondary peak more than minPeakDistance = 20 kb from the true lag *)
+    (exists l, seeds_model default_sparams [ref] q = l /\ List.length l = 3%nat /\
+       forall s, In s l -> sd_rev s = false /\ forall p, In p (sd_peaks s) -> K * 20000 < Z.abs (p - nth a (mpositions ref) 0)) /\
+    (* the whole run, mode best: ONE record, not the true pairs, with a HitEnum gap *)
+    (exists o w, program_run_full default_params default_sparams Best (K * 100000) [ref] [q] = Ok o /\ o_main o = [w] /\
+       pair_sites (rsegs w) <> true_pairs a n false /\ List.length (pair_sites (rsegs w)) = 14%nat /\
+       cigar_string (pair_sites (rsegs w)) = Ok "12M1I2M"%string).
+Proof. exact f13_refuted. Qed.
+
+Theorem C06_best_candidate_refuted :
+  exists (ref q : omap) (a n : nat),
+    consec_gt 19999 (mpositions ref) /\
+    90000 * (Z.of_nat (List.length (mpositions ref)) - 1) <= last (mpositions ref) 0 - hd 0 (mpositions ref) /\
+    planted (mpositions ref) a n false q /\ n = 15%nat /\ (4 <= a)%nat /\ (a + n + 4 <= List.length (mpositions ref))%nat /\
+    (* the FIRST seed is the true locus: forward strand, one secondary peak, 48 bp (<= 200 bp) from the true diagonal *)
+    (exists pk rest, seeds_model default_sparams [ref] q = mkSeed ref false [pk] :: rest /\ Z.abs (pk - nth a (mpositions ref) 0) = K * 48) /\
+    (* its candidate is perfect: exactly the true pairs, all 48 bp from the seed diagonal, 15M, confidence 15 * (1000 - 48) *)
+    (exists pk segs, Z.abs (pk - nth a (mpositions ref) 0) = K * 48 /\ aligner_align default_params 1 ref q [pk] false = Ok segs /\
+       pair_sites segs = true_pairs a n false /\ pair_shifts segs = repeat (K * 48) n /\ cigar_string (pair_sites segs) = Ok "15M"%string /\
+       conf (row_create segs (mid q) (mid ref) (mlen q) (mlen ref) false) = 20 * 14280) /\
+    (* and still the whole run (mode best) reports ONE record that is not the true pairs: a duplicate, 8M1D7M, confidence 14720 > 14280 *)
+    (exists o w, program_run_full default_params default_sparams Best (K * 100000) [ref] [q] = Ok o /\ o_main o = [w] /\
+       pair_sites (rsegs w) <> true_pairs a n false /\ List.length (pair_sites (rsegs w)) = 15%nat /\
+       cigar_string (pair_sites (rsegs w)) = Ok "8M1D7M"%string /\ conf w = 20 * 14720).
+Proof. exact f14_refuted. Qed.
+
+(* the hypotheses of the partial theorems hold on F13's witness (so it is a witness against the missing half, not against them): the deterministic
+   half C06_default applied to a seed ON the true diagonal gives the true pairs and 15M — the run never gets there *)
+Example C06_refuted_witness_true_seed_would_do :
+  match aligner_align default_params 1 f13_ref f13_q [567000] false with
+  | Ok segs => pair_sites segs = true_pairs 5 15 false /\ cigar_string (pair_sites segs) = Ok "15M"%string
+  | Err => False end.
+Proof. vm_compute. split; reflexivity. Qed.
+
+Print Assumptions C06_top_seeds_refuted.
+Print Assumptions C06_best_candidate_refuted.
